@@ -58,6 +58,8 @@ def enc(v):
         return {'f': v.hex()}
     if isinstance(v, Sym):
         return {'sym': v.tree()}
+    if isinstance(v, slice):
+        return {'slice': [v.start, v.stop, v.step]}
     return v
 
 
